@@ -182,6 +182,40 @@ theorem C11_cells_nodup (a : Rect) : a.cells.Nodup := nodup_cells a
 theorem C11_cols_same_cells (a : Rect) (c : Cell) : c ∈ a.cols.flatten ↔ c ∈ a.cells := by
   rw [mem_cols, mem_cells]
 
+/-- every enumerated cell carries the sheet of the range -/
+theorem C11_cells_sheet (a : Rect) (c : Cell) (h : c ∈ a.cells) : c.sheet = a.sheet := ((mem_cells a c).mp h).2
+
+/-- enumeration is a function of the address VALUE alone: the same rectangle put on a sheet enumerates the same cells
+    on that sheet.  (In pycel an address object can be derived from another one — `AddressRange(obj, sheet=…)`,
+    operator results, offsets; in the model a derived object is just a new value, so nothing that was called on the
+    source object can show in it.  The correspondence run checks the implementation against exactly this.) -/
+theorem C11_cells_resheet (a : Rect) (s : Str) :
+    ({ a with sheet := s } : Rect).cells = a.cells.map (fun c => { c with sheet := s }) := by
+  simp only [Rect.cells, Rect.rows, Rect.rowIdxs, Rect.colIdxs, List.map_flatten, List.map_map]
+  congr 1
+  apply List.map_congr_left
+  intro r _
+  simp only [Function.comp, List.map_map]
+  rfl
+
+/-- `AddressRange(obj, sheet=s)` on a sheet-less (or same-sheet) address object: the same corners and kind on the
+    sheet, enumerating the re-labelled cells; a different sheet is a ValueError -/
+theorem C11_resheet (a b : Addr) (s : Str) (h : resheet a s = .ok b) :
+    b.isRange = a.isRange ∧ (b.rect.c1, b.rect.r1, b.rect.c2, b.rect.r2) = (a.rect.c1, a.rect.r1, a.rect.c2, a.rect.r2) ∧
+    b.rect.cells = a.rect.cells.map (fun c => { c with sheet := b.rect.sheet }) ∧
+    (s ≠ [] → b.rect.sheet = s) := by
+  unfold resheet at h
+  split at h
+  · rename_i hs
+    injection h with h; subst h
+    refine ⟨rfl, rfl, ?_, fun hne => (hs.resolve_left hne).symm⟩
+    have := C11_cells_resheet a.rect a.rect.sheet
+    simpa using this
+  · split at h
+    · injection h with h; subst h
+      exact ⟨rfl, rfl, C11_cells_resheet a.rect s, fun _ => rfl⟩
+    · cases h
+
 /-! ### "intersection yields exactly the common cells (or #NULL!), union the minimal bounding rectangle" -/
 
 /-- `&` of two rectangles of one sheet is never #VALUE!; a rectangle result is well-formed, on the same sheet, and
